@@ -26,16 +26,16 @@ pub fn alpha(tier: &str) -> Alpha {
     if tier == "thorough" {
         Alpha {
             comps: vec![Cmp::X, Cmp::N(0), Cmp::N(1), Cmp::N(2)],
-            quals: vec![("", ""), ("0", ""), ("a", ""), ("a.0", ""), ("", "b"), ("a", "b")],
-            red_quals: vec![("", ""), ("0", ""), ("a", "")],
+            quals: vec![("", ""), ("0", ""), ("a", ""), ("a.0", ""), ("0.a", ""), ("", "b"), ("a", "b")],
+            red_quals: vec![("", ""), ("0", ""), ("a", ""), ("0.a", "")],
             grid_k: 3,
             thorough: true,
         }
     } else {
         Alpha {
             comps: vec![Cmp::X, Cmp::N(0), Cmp::N(1)],
-            quals: vec![("", ""), ("0", ""), ("a", ""), ("", "b")],
-            red_quals: vec![("", ""), ("a", "")],
+            quals: vec![("", ""), ("0", ""), ("a", ""), ("0.a", ""), ("", "b")],
+            red_quals: vec![("", ""), ("a", ""), ("0.a", "")],
             grid_k: 2,
             thorough: false,
         }
@@ -516,6 +516,20 @@ fn limit_family_c01(e: &EngA, sink: &Sink, c: &ACounters) {
             }
         }
     }
+    // wide programs: many alternatives / many comparators / long identifiers, so that the range
+    // text (not any single version) exceeds 256, 512, ... bytes (npm has no range length limit)
+    let full = |a: u64, b: u64, c: u64, pre: &str| Partial { c: vec![Cmp::N(a), Cmp::N(b), Cmp::N(c)], pre: pre.into(), build: String::new() };
+    for k in [8u64, 15, 16, 17, 24, 40, 80] {
+        progs.push((0..k).map(|i| Alt::Set(vec![Simple::P(Op::Bare, full(1, 0, i, ""))])).collect());
+        progs.push((0..k).map(|i| Alt::Set(vec![Simple::P(Op::Bare, Partial { c: vec![Cmp::N(i)], pre: String::new(), build: String::new() })])).collect());
+        progs.push(vec![Alt::Set((0..k).map(|i| Simple::P(Op::Ge, full(1, 0, i, ""))).collect())]);
+        progs.push((0..k).map(|i| Alt::Set(vec![Simple::P(Op::Caret, full(i, 1, 0, "a")), Simple::P(Op::Lt, full(i, 5, 0, ""))])).collect());
+    }
+    for n in [60usize, 120, 200, 240] {
+        let (ta, tb) = ("a".repeat(n), "b".repeat(n));
+        progs.push(vec![Alt::Set(vec![Simple::P(Op::Ge, full(1, 0, 0, &ta)), Simple::P(Op::Lt, full(1, 0, 0, &tb))])]);
+        progs.push(vec![Alt::Set(vec![Simple::P(Op::Bare, full(1, 0, 0, &ta))]), Alt::Set(vec![Simple::P(Op::Bare, full(1, 0, 0, &tb))]), Alt::Set(vec![Simple::P(Op::Tilde, full(2, 0, 0, &ta))])]);
+    }
     // dedicated universe
     let mut bvs = vec![];
     for p in &progs {
@@ -606,6 +620,23 @@ fn lt_major_site(prog: &Prog, u: &Universe, diff: &Bits, sat: &Bits) -> bool {
         }
     }
     true
+}
+
+/// texts of wide ranges (printed form far beyond 256 bytes) used by the C13 wide family
+pub fn wide_texts() -> Vec<String> {
+    let mut out = vec![];
+    for k in [8u64, 15, 16, 17, 24, 40, 80] {
+        out.push((0..k).map(|i| format!("1.0.{}", i)).collect::<Vec<_>>().join(" || "));
+        out.push((0..k).map(|i| format!("{}", i)).collect::<Vec<_>>().join("||"));
+        out.push((0..k).map(|i| format!("^{}.1.0-a <{}.5.0", i, i)).collect::<Vec<_>>().join(" || "));
+        out.push((0..k).map(|i| format!(">{}.0.0 <={}.0.1-0.a", i, i)).collect::<Vec<_>>().join(" || "));
+    }
+    for n in [60usize, 120, 200, 240] {
+        let (ta, tb) = ("a".repeat(n), "b".repeat(n));
+        out.push(format!(">=1.0.0-{} <1.0.0-{}", ta, tb));
+        out.push(format!("1.0.0-{} || 1.0.0-{} || ~2.0.0-{}", ta, tb, ta));
+    }
+    out
 }
 
 pub fn replay(prop: &str, case: &Value, sink: &Sink) {
